@@ -144,7 +144,7 @@ def manifest():
         "engines": engines,
         "checks": checks,
         "not_applicable": not_applicable,
-        "notes": "Hooks: H1 rewrites one `use` line in internal/mithril-resource-pool/src/resource_pool.rs (cfg-switched import); H3 rewrites the four `#[global_allocator]` attribute lines of mithril-aggregator/src/lib.rs and mithril-signer/src/lib.rs into `#[cfg_attr(not(mithril_verif), global_allocator)]`; H2 only adds code; H4 (mithril-signer: seeded generator for the per-epoch key material instead of OsRng under cfg mithril_verif) puts one existing `let` line behind `#[cfg(not(mithril_verif))]` and adds code. Hence add_only=false. With both cfgs off the crates compile to what they compiled to before. Unguarded `fix:` commits in /repo (20, each recorded with its replay file in known-findings.json as `fixed`; full table in DESIGN.md section 11.3): 973c7af0c (C18), 1a94af927 (C12), 4f5ce2b29 (C16), c196a0569 0b86c82cc 9a2a9eab4 (C02), 0d8ed8408 6057eb0a7 (C05), d7948dfa7 eef9023be 483b6bf59 (C03), 00cf1206e 8f2e3d406 333535004 (C10), 658c0504a 2d0846181 (C19), 7b2f8551d 42b0c08f9 8f720ef97 (C13), 5d0b6c195 (C20).",
+        "notes": "Hooks: H1 rewrites one `use` line in internal/mithril-resource-pool/src/resource_pool.rs (cfg-switched import); H3 rewrites the four `#[global_allocator]` attribute lines of mithril-aggregator/src/lib.rs and mithril-signer/src/lib.rs into `#[cfg_attr(not(mithril_verif), global_allocator)]`; H2 only adds code; H4 (mithril-signer: seeded generator for the per-epoch key material instead of OsRng under cfg mithril_verif) puts one existing `let` line behind `#[cfg(not(mithril_verif))]` and adds code. Hence add_only=false. With both cfgs off the crates compile to what they compiled to before. Unguarded `fix:` commits in /repo (21, each recorded with its replay file in known-findings.json as `fixed`; full table in DESIGN.md section 11.3): 973c7af0c (C18), 1a94af927 (C12), 4f5ce2b29 (C16), c196a0569 0b86c82cc 9a2a9eab4 (C02), 0d8ed8408 6057eb0a7 (C05), d7948dfa7 eef9023be 483b6bf59 (C03), 00cf1206e 8f2e3d406 333535004 (C10), 658c0504a 2d0846181 2c79164b6 (C19), 7b2f8551d 42b0c08f9 8f720ef97 (C13), 5d0b6c195 (C20).",
     }
 
 if __name__ == "__main__":
